@@ -161,13 +161,17 @@ def _baseline_context(key):
 
 def _exits_before(fdef, first_stmt):
     """Hash of the return statements of `fdef` that come before `first_stmt` in source order (not
-    those of nested functions), each with the chain of `if` tests it sits under."""
+    those of nested functions), each with the chain of `if` tests it sits under, and of the chain
+    of `if` tests `first_stmt` itself sits under."""
     import hashlib
     items = []
 
     def walk(stmts, guards):
         for s_ in stmts:
-            if s_ is first_stmt or getattr(s_, 'lineno', 0) >= first_stmt.lineno:
+            if s_ is first_stmt:
+                items.append(('guards-of-the-block', tuple(guards)))   # the `if` tests it sits under
+                return True
+            if getattr(s_, 'lineno', 0) > first_stmt.lineno:
                 return True
             if isinstance(s_, (ast.FunctionDef, ast.AsyncFunctionDef, ast.ClassDef)):
                 continue
